@@ -398,8 +398,21 @@ package kapacitor
 //@   ensures result != nil && fresh(result) && qwf(result) && result.Len == len(buf) && fresh(&result.data[0])
 //@   ensures forall k int :: 0 <= k && k < len(buf) ==> qview(result, k) == buf[k]
 
+// emit works on the joinsets buffered under g.oldestTime: it dereferences g.sets[g.oldestTime].
+// (Trusted body; the precondition is what its first statements need.)
 //@ func (*joinGroup).emit
 //@   trusted
+//@   requires g != nil
+//@   requires has(g.sets, g.oldestTime) || len(g.sets) == 0
+//@   requires has(g.sets, g.oldestTime) ==> g.sets[g.oldestTime] != nil
+
+// A barrier from one parent: the group's bookkeeping must stay consistent with the buffered
+// joinsets -- in particular oldestTime must still name a buffered time when anything is buffered,
+// whatever the barrier's time is (older than, equal to or newer than the buffered data).
+//@ func (*joinGroup).Barrier
+//@   props C12 C05
+//@   requires joinGroupOK(g) && 0 <= src && src < len(g.head)
+//@   requires has(g.sets, g.oldestTime) || (len(g.sets) == 0 && g.oldestTime == time.Time(0))
 //@ func (*joinGroup).checkOnlyReadSets
 //@   props C12
 //@   requires g != nil
@@ -421,6 +434,7 @@ package kapacitor
 //@ func (*joinGroup).Collect
 //@   props C12
 //@   requires joinGroupOK(g) && 0 <= src && src < len(g.head) && p != nil
+//@   requires has(g.sets, g.oldestTime) || (len(g.sets) == 0 && g.oldestTime == time.Time(0))
 //@   guardcall Set#1: set != nil && len(set.values) == len(g.head) && set.values[src] == nil
 //@   guardcall checkOnlyReadSets#1: g.head[src] == p.Time().Round(g.n.j.Tolerance) && has(g.sets, p.Time().Round(g.n.j.Tolerance))
 //@   opt split=5
